@@ -103,6 +103,9 @@ func (e *Engine) verifyFunc(fn *ssa.Function, fc *FuncContract, safety bool, dev
 				continue
 			}
 			ft.assume("true", fact)
+			if r.Hypothesis {
+				ft.assumed["HYPOTHESIS of "+fc.Name+" (property hypothesis, not checked at call sites): "+r.Text] = true
+			}
 		}
 		for _, in := range fc.Inits {
 			v, err := env.eval(in.E)
@@ -193,6 +196,7 @@ func (e *Engine) verifyFunc(fn *ssa.Function, fc *FuncContract, safety bool, dev
 				fr.oblig(kind, a.c.Props, fn.Pos(), a.c.name(), or(a.conds...), and(a.goals...))
 			}
 		}
+		fr.loopCoverObligations()
 		// vacuity: some normal exit is reachable under the assumptions made on the way
 		if len(fr.exits) > 0 && (len(fc.Ensures) > 0 || len(fc.Requires) > 0) {
 			var conds []string
